@@ -1851,3 +1851,135 @@ func E4AlphaDivision(c *core.Ctx, r *core.Report) {
 	r.Count("E4.alpha-divisions", n)
 	r.Floor("E4.alpha-divisions", 3)
 }
+
+// E4WorklistBound: a work-list loop that feeds its own queue has an explicit bound.
+func E4WorklistBound(c *core.Ctx, r *core.Report) {
+	r.Rule("E4.worklist-bound", "bentleyOttmann: the sweep runs `for 0 < len(*queue)` and pushes new events onto that same queue from inside the loop (split segments after snapping, intersections found in the current column, re-entering the column with `goto`). Whether the queue ever drains is then a numerical question — every split must move work strictly to the right — that no syntactic argument settles; the loop is accepted only if it also carries an explicit bound (a counter, declared outside, that is incremented in the body and tested to leave the loop). Without one, inputs whose intersections keep snapping into new columns make Or/And/Settle spin and allocate without end")
+	p := c.MustPkg("")
+	info := p.TypesInfo
+	fd := core.MustFuncDecl(p, "bentleyOttmann")
+	r.Func("canvas.bentleyOttmann")
+	n := 0
+	var outer []*ast.ForStmt
+	ast.Inspect(fd.Body, func(m ast.Node) bool {
+		loop, ok := m.(*ast.ForStmt)
+		if !ok || loop.Cond == nil || loop.Init != nil {
+			return true
+		}
+		for _, o := range outer {
+			if o.Pos() < loop.Pos() && loop.End() <= o.End() {
+				return true // rounds of an inner loop are rounds of the work-list loop around it
+			}
+		}
+		// condition mentions len(*Q) or len(Q)
+		var q types.Object
+		ast.Inspect(loop.Cond, func(k ast.Node) bool {
+			call, ok := k.(*ast.CallExpr)
+			if !ok || len(call.Args) != 1 {
+				return true
+			}
+			if f, ok := call.Fun.(*ast.Ident); !ok || f.Name != "len" {
+				return true
+			}
+			if id := core.RootIdent(call.Args[0]); id != nil {
+				if st, ok := call.Args[0].(*ast.StarExpr); ok {
+					if xid, ok := st.X.(*ast.Ident); ok {
+						q = core.ObjOf(info, xid)
+					}
+				} else if xid, ok := call.Args[0].(*ast.Ident); ok {
+					q = core.ObjOf(info, xid)
+				}
+			}
+			return true
+		})
+		if q == nil {
+			return true
+		}
+		// the body feeds q: q.Push(...) or q passed as an argument to a call
+		feeds := 0
+		ast.Inspect(loop.Body, func(k ast.Node) bool {
+			call, ok := k.(*ast.CallExpr)
+			if !ok {
+				return true
+			}
+			if se, ok := call.Fun.(*ast.SelectorExpr); ok && se.Sel.Name == "Push" {
+				if id, ok := core.Unparen(se.X).(*ast.Ident); ok && core.ObjOf(info, id) == q {
+					feeds++
+				}
+			}
+			for _, a := range call.Args {
+				if id, ok := core.Unparen(a).(*ast.Ident); ok && core.ObjOf(info, id) == q {
+					if f := core.CalleeOf(info, call); f != nil && f.Pkg() == p.Types {
+						feeds++
+					}
+				}
+			}
+			return true
+		})
+		if feeds == 0 {
+			return true
+		}
+		n++
+		outer = append(outer, loop)
+		key := fmt.Sprintf("canvas.bentleyOttmann|work-list loop #%d over `%s` that feeds its own queue has an explicit bound", n, q.Name())
+		// explicit bound: counter declared outside the loop, incremented in the body, compared in a
+		// condition whose branch leaves the loop
+		bounded := false
+		ast.Inspect(loop.Body, func(k ast.Node) bool {
+			inc, ok := k.(*ast.IncDecStmt)
+			if !ok || inc.Tok != token.INC {
+				return true
+			}
+			id, ok := inc.X.(*ast.Ident)
+			if !ok {
+				return true
+			}
+			o := core.ObjOf(info, id)
+			if o == nil || (o.Pos() > loop.Pos() && o.Pos() < loop.End()) {
+				return true
+			}
+			ast.Inspect(loop, func(z ast.Node) bool {
+				is, ok := z.(*ast.IfStmt)
+				if !ok {
+					return true
+				}
+				mentions := false
+				ast.Inspect(is.Cond, func(y ast.Node) bool {
+					if yid, ok := y.(*ast.Ident); ok && core.ObjOf(info, yid) == o {
+						mentions = true
+					}
+					return true
+				})
+				if !mentions {
+					return true
+				}
+				for _, st := range is.Body.List {
+					switch x := st.(type) {
+					case *ast.BranchStmt:
+						if x.Tok == token.BREAK {
+							bounded = true
+						}
+					case *ast.ReturnStmt:
+						bounded = true
+					case *ast.ExprStmt:
+						if call, ok := x.X.(*ast.CallExpr); ok {
+							if f, ok := call.Fun.(*ast.Ident); ok && f.Name == "panic" {
+								bounded = true
+							}
+						}
+					}
+				}
+				return true
+			})
+			return true
+		})
+		if bounded {
+			r.OK("E4.worklist-bound", key, c.Pos(loop.Pos()), fmt.Sprintf("%d feeding sites", feeds))
+		} else {
+			r.Fail("E4.worklist-bound", key, c.Pos(loop.Pos()), fmt.Sprintf("the loop runs until `%s` is empty and pushes onto it at %d sites in its body, with no counter that bounds the number of rounds: termination rests on every new event lying strictly further along the sweep, which snapping does not guarantee", q.Name(), feeds))
+		}
+		return true
+	})
+	r.Count("E4.worklist-loops", n)
+	r.Floor("E4.worklist-loops", 1)
+}
